@@ -104,7 +104,7 @@ HARNESSES.append(
          backends=["default", "kissat"],
          bound="one index node of 40 bytes (interior, 4 entries) / 56 bytes (root, 3 entries) [thorough: 48 / 64 bytes, 5 / 4 entries], every byte symbolic; directory of 4 / 3 [5 / 4] blocks, "
                "every prior fact of every block symbolic"))
-P5_UW = ["main.%d:130" % i for i in range(48)] + ["fix_problem.%d:26" % i for i in range(4)] + ["vf_bit.0:26", "vf_get_range.0:9",
+P5_UW = ["main.%d:200" % i for i in range(48)] + ["fix_problem.%d:26" % i for i in range(4)] + ["vf_bit.0:26", "vf_get_range.0:9",
          "ext2fs_test_inode_bitmap_range.0:9", "vf_reset_record.0:18", "vf_reset_record.1:4", "ext2fs_bitcount.0:5", "ext2fs_bitcount.1:3", "ext2fs_bitcount.2:5"]
 HARNESSES.append(
     dict(name="p5blocks", src="p5blocks.c", extra_src=["lib/ext2fs/blknum.c", "lib/ext2fs/bitops.c"],
